@@ -11,7 +11,7 @@ from vlib import Rng
 BOUNDARY = ["0", "1", "len-1", "len", "len+1", "2^31", "2^32-1"]
 SAMPLES = ["test.dmp", "linux-mini.dmp", "simple-crashpad.dmp", "invalid-parameter.dmp", "pipeline-inlines-macos-segv.dmp"]
 MODEL_FIELDS = ["R", "SI", "TL", "ML", "UM", "MEM", "M64", "MI", "TI", "TN", "HD", "EX", "EXP", "EXC",
-                "TLP", "MS", "LC", "LS", "LR", "LE", "LL", "MA", "CP", "SIS", "AS", "BP", "MB", "SE", "MC", "RM", "RI", "CA", "TE"]
+                "TLP", "MS", "LC", "LS", "LR", "LE", "LL", "MA", "CP", "SIS", "AS", "BP", "MB", "SE", "MC", "RM", "RI", "CA", "TE", "AM", "AL", "AI", "A6", "TG"]
 # tighter than the brief's max(1 MiB, 64*len^2): the largest single request is LINEAR in the input
 PK_FLOOR = 64 * 1024
 PK_PER_BYTE = 16
